@@ -1,7 +1,7 @@
 package batchers
 
 const (
-	zzFileLen = 2
-	zzFiles   = 2
+	zzFileLen     = 2
+	zzFiles       = 2
 	zzRacePreempt = 1
 )
